@@ -189,7 +189,7 @@ pub mod model;
 pub mod verif {
     pub use crate::util::{
         limited_queue::LimitedQueue,
-        sort::{osu_legacy as sort_osu_legacy, TandemSorter},
+        sort::{csharp as sort_csharp, osu_legacy as sort_osu_legacy, TandemSorter},
         strains_vec::StrainsVec,
     };
 
